@@ -5,9 +5,16 @@ DESIGN.md §11.4."""
 import glob, json, os, shutil, sys
 root = os.path.dirname(os.path.dirname(os.path.abspath(__file__)))
 src = "/tmp/seeded-out"
+if "--src" in sys.argv:
+    src = sys.argv[sys.argv.index("--src") + 1]
+first_pass = {}
+if os.path.exists(os.path.join(src, "first_pass.json")):
+    first_pass = json.load(open(os.path.join(src, "first_pass.json")))
 rejected = {"c05-b": "not a violation: `-x :: T` parses as `-(x :: T)` (full_moon and the Luau grammar give `::` higher precedence than unary operators), so dropping the parentheses does not change the program; the demonstration asserts on the text, not on the parse"}
 rows = []
-for d in sorted(glob.glob(os.path.join(src, "c*"))):
+for d in sorted(glob.glob(os.path.join(src, "*"))):
+    if not os.path.isfile(os.path.join(d, "patch.diff")):
+        continue
     sid = os.path.basename(d)
     cpath = os.path.join(d, "confirm.json")
     if not os.path.exists(cpath):
@@ -23,15 +30,17 @@ for d in sorted(glob.glob(os.path.join(src, "c*"))):
     out = os.path.join(root, "seeded", sid)
     os.makedirs(out, exist_ok=True)
     for f in os.listdir(d):
-        if f in ("patch.diff", "demo.sh", "check_json.py") or f.endswith(".rs"):
+        if f in ("patch.diff", "demo.sh", "check_json.py", "demo_cli.sh") or f.endswith(".rs") or (f.endswith((".sh", ".py", ".lua", ".txt")) and os.path.getsize(os.path.join(d, f)) < 40000):
             shutil.copy(os.path.join(d, f), os.path.join(out, f))
     meta2 = {"id": sid, "breaks_property": meta.get("property"), "summary": meta.get("summary"), "needs_to_manifest": meta.get("needs"),
              "demonstration": meta.get("demo"),
              "what_i_ran": "tools/run_seeded.py in a scratch worktree of /repo: cargo build --features verif,luau,lua54,luajit,editorconfig; cargo test --offline (153 tests must pass with the change); the demonstration with the change (must fail) and without it (must pass); ./check <property> quick (then thorough if quick was silent) with SV_REPO pointing at the patched copy",
              "confirm": c}
+    if sid in first_pass:
+        meta2["first_pass_detected_by"] = first_pass[sid]
     json.dump(meta2, open(os.path.join(out, "meta.json"), "w"), indent=1)
     det = c.get("detected_by", [])
     first = c.get("first_round_detected_by")
-    rows.append((sid, meta.get("property"), "kept", (meta.get("summary") or "")[:150], ", ".join(det) if det else "MISSED"))
+    rows.append((sid, meta.get("property"), "kept", (meta.get("summary") or "")[:150], (", ".join(det) if det else "MISSED") + (" (first pass: " + (", ".join(first_pass[sid]) or "missed") + ")" if sid in first_pass else "")))
 for r in rows:
     print("| %s | %s | %s | %s | %s |" % r)
